@@ -61,10 +61,13 @@ Proof. exact dec_image_stream_accepts. Qed.
 
 (* what the validation of the counts means: coupons at most the cells of the k x 64 matrix, table entries at most the
    load limit 3/4 * 64k of the largest u32_table, window / table words at most the compressor's own buffer sizes (which
-   depend on lg_k and the validated entry count only) *)
+   depend on lg_k and the validated entry count only); and the other way round the window (k bytes) and the pair
+   vector (table_num_entries) that uncompress builds are bounded by the words actually present: k <= 32 * window words,
+   entries <= 16 * table words *)
 Theorem C11_cpc_counts_ok : forall l nc tne tw ww, counts_ok l nc tne tw ww = true ->
   nc <= 64 * 2 ^ l /\ 4 * tne <= 192 * 2 ^ l /\ ww <= safe_length_for_compressed_window_buf (2 ^ l) /\
-  exists b, table_words_bound l tne = Some b /\ tw <= b.
+  (exists b, table_words_bound l tne = Some b /\ tw <= b) /\
+  (ww = 0 \/ 2 ^ l <= 32 * ww) /\ tne <= 16 * tw.
 Proof. exact counts_ok_spec. Qed.
 
 (* the tail shared by both readers: preamble_ints consistent with flags and coupon count, serial version 1, family 16,
@@ -78,14 +81,16 @@ Theorem C11_cpc_tail_accepts : forall sd i s kxp hip, sketch_of_image sd i = Som
   pairs_in_range (cstate_of_image i) (i_lgk i) (i_nc i) = true.
 Proof. exact sketch_of_image_accepts. Qed.
 
-(* end to end, bytes reader *)
+(* end to end, bytes reader: with the size bound above, the pair vector (4 bytes per entry, entries <= 16 * table words)
+   and the window (2^lg_k bytes <= 32 * window words) that uncompress builds are at most 16 x the bytes supplied *)
 Theorem C11_cpc_bytes_accepts : forall sd bytes s kxp hip, dec_bytes sd bytes = Some (s, kxp, hip) ->
   exists i, dec_image_bytes bytes = Some i /\
     4 <= lgk s <= 26 /\ lgk s = i_lgk i /\ ncoup s = i_nc i /\
     i_ser i = 1 /\ i_fam i = 16 /\ i_sh i = compute_seed_hash sd /\
     i_pre i = preamble_ints (i_nc i) (ihh i) (iht i) (ihw i) /\
     8 + 4 * (lenN (i_win i) + lenN (i_tab i)) <= lenN bytes /\
-    (ncoup s <> 0 -> ncoup s <= 64 * 2 ^ lgk s /\ 4 * i_tne i <= 192 * 2 ^ lgk s).
+    (ncoup s <> 0 -> ncoup s <= 64 * 2 ^ lgk s /\ 4 * i_tne i <= 192 * 2 ^ lgk s /\
+                     i_tne i <= 16 * lenN (i_tab i) /\ (lenN (i_win i) = 0 \/ 2 ^ lgk s <= 32 * lenN (i_win i))).
 Proof. exact dec_bytes_accepts. Qed.
 
 (* end to end, stream reader *)
